@@ -44,6 +44,16 @@ class GotranPythonCodePrinter(PythonCodePrinter):
             # ... and an integer power that does not fit in 64 bits would be a Python int
             # that numpy and jax refuse (see _print_Integer)
             expr = sympy.Pow(sympy.Float(int(expr.base)), expr.exp, evaluate=False)
+        elif (
+            expr.base.is_integer
+            and not expr.base.is_number
+            and expr.base.has(sympy.Piecewise)
+            and not expr.exp.is_nonnegative
+        ):
+            # ... as does an integer-valued conditional, e.g. numpy.where(c, 3, 2)**(-2)
+            expr = sympy.Pow(
+                sympy.Mul(sympy.Float(1.0), expr.base, evaluate=False), expr.exp, evaluate=False
+            )
         return super()._hprint_Pow(expr, rational, sqrt)
 
     def _print_MatrixElement(self, expr):
